@@ -451,15 +451,40 @@ func excerpt(s string, n int) string {
 	return strings.Join(ls, "\n")
 }
 
-var diagnostic = regexp.MustCompile(`(?m)^panic: can't |can't derive|can't summon|not supported|unsupported`)
+// How a failing gombok run is classified. Both a deliberate rejection and a crash end in a Go
+// panic with a goroutine trace (gombok rejects with panic("can't summon array type, ...")), so
+// the trace does not tell them apart; the panic VALUE does:
+//   - rejection: the message is one gombok wrote itself and names the problem in the input
+//     ("can't summon ...", "can't derive ...", "... not supported"); it is counted, not reported;
+//   - crash: the panic value comes from the Go runtime or a library ("runtime error: invalid
+//     memory address", "interface conversion", "index out of range", fp's own panics, "fatal
+//     error") - the generator fell over, nothing names a problem of the input: generator-crash/...;
+//   - any other non-zero exit ("format error": the emitted text is not Go; silence):
+//     generator-failure/...
+var diagnostic = regexp.MustCompile(`(?m)^panic: can't |^can't derive|^panic: [^\n]*(not supported|unsupported)`)
+var panicLine = regexp.MustCompile(`(?m)^(panic: [^\n]*|fatal error: [^\n]*)$`)
 
-// classifyGombokFailure: a message that names the problem is a rejection; a runtime error, a
-// "format error" (the emitted text is not Go) or silence is a failure of the generator.
-func classifyGombokFailure(out string) (rejected bool) {
-	if strings.Contains(out, "runtime error") || strings.Contains(out, "format error") || strings.Contains(out, "fatal error") {
-		return false
+type failureKind int
+
+const (
+	rejectedWithDiagnostic failureKind = iota
+	generatorCrash
+	generatorFailure
+)
+
+func classifyGombokFailure(out string) failureKind {
+	pl := panicLine.FindString(out)
+	runtimeish := strings.Contains(pl, "runtime error") || strings.HasPrefix(pl, "fatal error") ||
+		strings.Contains(pl, "interface conversion") || strings.Contains(out, "[signal ")
+	switch {
+	case pl != "" && !runtimeish && diagnostic.MatchString(out):
+		return rejectedWithDiagnostic
+	case pl != "":
+		return generatorCrash
+	case diagnostic.MatchString(out) && !strings.Contains(out, "format error"):
+		return rejectedWithDiagnostic
 	}
-	return diagnostic.MatchString(out)
+	return generatorFailure
 }
 
 func without(ts []*target, drop map[*target]bool) []*target {
@@ -608,12 +633,15 @@ func (r *runner) run() {
 			if cout == "" {
 				cout = gout
 			}
-			if classifyGombokFailure(cout) {
+			switch classifyGombokFailure(cout) {
+			case rejectedWithDiagnostic:
 				o.count("rejected/with-diagnostic/"+tcs[c.TC].Name, 1)
 				r.countTarget(c, "rejected/")
 				o.logf("rejected with a diagnostic: %s: %s", c.ID, excerpt(cout, 3))
-			} else {
-				o.report("generator-failure/"+c.ID, "gombok fails (no diagnostic that names the problem) when %s is derived:\n%s\ndirective:\n%s", c.ID, excerpt(cout, 25), c.directive())
+			case generatorCrash:
+				o.report("generator-crash/"+c.ID, "gombok crashes (Go panic that is not one of its diagnostics) when %s is derived:\n%s\ninput:\n%s", c.ID, excerpt(cout, 25), r.inputOf(c))
+			default:
+				o.report("generator-failure/"+c.ID, "gombok fails (no diagnostic that names the problem) when %s is derived:\n%s\ninput:\n%s", c.ID, excerpt(cout, 25), r.inputOf(c))
 			}
 			dropAll(c)
 			continue
